@@ -12,6 +12,8 @@ import (
 	"fmt"
 	"io"
 	"io/ioutil"
+	"log"
+	"net"
 	"net/http"
 	"net/http/httptest"
 	"net/url"
@@ -65,6 +67,15 @@ type Case struct {
 	BodyPad   int    `json:"body_pad,omitempty"`
 	PadWith   string `json:"pad_with,omitempty"`
 	BodyErr   bool   `json:"body_err,omitempty"`
+	// Fault: how the body reader fails after delivering Data (and the pad):
+	// reset, unexpected-eof, canceled, max-bytes, zero-reads. BodyErr is the
+	// older spelling of Fault "reset".
+	Fault string `json:"fault,omitempty"`
+	// Wire != "": the request is written byte by byte to a real TCP socket
+	// served by net/http: chunked-bad-size (Data as one good chunk, then an
+	// invalid chunk size) or short-content-length (Content-Length announces
+	// more than Data, then the client closes its side).
+	Wire string `json:"wire,omitempty"`
 	Cancelled bool   `json:"cancelled,omitempty"`
 	// Prev, when set, is executed immediately before this request in the
 	// same process, Repeat times (sequence family).
@@ -91,6 +102,31 @@ func (p *padReader) Read(buf []byte) (int, error) {
 	}
 	p.n -= k
 	return k, nil
+}
+
+type errReader struct{ err error }
+
+func (r errReader) Read([]byte) (int, error) { return 0, r.err }
+
+// zeroReader returns (0, nil) n times, then fails.
+type zeroReader struct{ n int }
+
+func (z *zeroReader) Read([]byte) (int, error) {
+	if z.n > 0 {
+		z.n--
+		return 0, nil
+	}
+	return 0, errors.New("read tcp: connection reset by peer")
+}
+
+func (cs *Case) fault() string {
+	if cs.Fault != "" {
+		return cs.Fault
+	}
+	if cs.BodyErr {
+		return "reset"
+	}
+	return ""
 }
 
 // failReader fails like a connection that broke off.
@@ -178,6 +214,8 @@ type env struct {
 	pristine string
 	cal      *ical.Calendar
 	card     vcard.Card
+	wireLn   net.Listener
+	wire     chan *wireJob
 }
 
 func newEnv(c *fw.Ctx) (*env, error) {
@@ -269,7 +307,7 @@ func buildRequest(cs *Case) (*http.Request, error) {
 	}
 	req := &http.Request{Method: cs.Method, URL: u, Proto: "HTTP/1.1", ProtoMajor: 1, ProtoMinor: 1, Header: h,
 		Host: "dav.example", RequestURI: cs.Path, RemoteAddr: "127.0.0.1:1"}
-	if cs.BodyPad > 0 || cs.BodyErr {
+	if flt := cs.fault(); cs.BodyPad > 0 || flt != "" {
 		readers := []io.Reader{bytes.NewReader(cs.Body.Data)}
 		total := len(cs.Body.Data)
 		if cs.BodyPad > 0 {
@@ -280,11 +318,26 @@ func buildRequest(cs *Case) (*http.Request, error) {
 			readers = append(readers, &padReader{n: cs.BodyPad, b: pb})
 			total += cs.BodyPad
 		}
-		if cs.BodyErr {
-			readers = append(readers, failReader{})
+		if flt != "" {
 			total += 4096 // what the client had announced
 		}
+		switch flt {
+		case "reset":
+			readers = append(readers, failReader{})
+		case "unexpected-eof":
+			readers = append(readers, errReader{io.ErrUnexpectedEOF})
+		case "canceled":
+			readers = append(readers, errReader{context.Canceled})
+		case "zero-reads":
+			readers = append(readers, &zeroReader{n: 150})
+		case "max-bytes":
+			readers = append(readers, &padReader{n: 4096, b: ' '})
+		}
 		req.Body = ioutil.NopCloser(io.MultiReader(readers...))
+		if flt == "max-bytes" {
+			// the limit a front-end put on the body is reached after Data
+			req.Body = http.MaxBytesReader(nil, req.Body, int64(total-4096))
+		}
 		req.ContentLength = int64(total)
 		h.Set("Content-Length", strconv.Itoa(total))
 	} else if len(cs.Body.Data) > 0 {
@@ -294,7 +347,7 @@ func buildRequest(cs *Case) (*http.Request, error) {
 	} else {
 		req.Body = http.NoBody
 	}
-	if cs.Cancelled {
+	if cs.Cancelled || cs.fault() == "canceled" {
 		ctx, cancel := context.WithCancel(context.Background())
 		cancel()
 		return req.WithContext(ctx), nil
@@ -302,13 +355,10 @@ func buildRequest(cs *Case) (*http.Request, error) {
 	return req.WithContext(context.Background()), nil
 }
 
-func (e *env) exec(cs *Case) outcome {
-	var out outcome
-	req, err := buildRequest(cs)
-	if err != nil {
-		out.BuildErr = err.Error()
-		return out
-	}
+// prepare builds the handler for one request (fresh backend doubles) and
+// returns a function that completes the outcome with what the backends and
+// the served tree show afterwards.
+func (e *env) prepare(cs *Case) (http.Handler, func(out *outcome), error) {
 	var handler http.Handler
 	var calB *doubles.CalBackend
 	var cardB *doubles.CardBackend
@@ -327,7 +377,48 @@ func (e *env) exec(cs *Case) outcome {
 			Capabilities: []webdav.Capability{caldav.CapabilityCalendar, carddav.CapabilityAddressBook}}
 		handler = http.HandlerFunc(func(w http.ResponseWriter, r *http.Request) { webdav.ServePrincipal(w, r, opts) })
 	default:
-		out.BuildErr = "unknown target " + cs.Target
+		return nil, nil, errors.New("unknown target " + cs.Target)
+	}
+	finish := func(out *outcome) {
+		var calls []doubles.Call
+		if calB != nil {
+			calls = calB.Calls()
+		}
+		if cardB != nil {
+			calls = cardB.Calls()
+		}
+		for _, cl := range calls {
+			out.Calls = append(out.Calls, cl.Op)
+			if cl.Mutating() {
+				out.Mutations = append(out.Mutations, cl.Op)
+			}
+		}
+		if cs.Target == "webdav" {
+			s, err := mon.Snapshot(e.fsRoot)
+			if err != nil || s.Shape() != e.pristine {
+				out.Mutations = append(out.Mutations, "tree changed")
+				if err := e.buildTree(); err != nil {
+					e.c.Inconclusive("C13: cannot rebuild the served tree: " + err.Error())
+				}
+			}
+		}
+	}
+	return handler, finish, nil
+}
+
+func (e *env) exec(cs *Case) outcome {
+	if cs.Wire != "" {
+		return e.execWire(cs)
+	}
+	var out outcome
+	req, err := buildRequest(cs)
+	if err != nil {
+		out.BuildErr = err.Error()
+		return out
+	}
+	handler, finish, err := e.prepare(cs)
+	if err != nil {
+		out.BuildErr = err.Error()
 		return out
 	}
 	rec := httptest.NewRecorder()
@@ -345,27 +436,157 @@ func (e *env) exec(cs *Case) outcome {
 		out.Site = fw.PanicSite(stack)
 		out.Stack = stack
 	}
-	var calls []doubles.Call
-	if calB != nil {
-		calls = calB.Calls()
+	finish(&out)
+	return out
+}
+
+// ---- execution over a real socket ------------------------------------------
+
+type wireJob struct {
+	cs   *Case
+	done chan outcome
+}
+
+type statusWriter struct {
+	http.ResponseWriter
+	code int
+}
+
+func (w *statusWriter) WriteHeader(code int) {
+	if w.code == 0 {
+		w.code = code
 	}
-	if cardB != nil {
-		calls = cardB.Calls()
+	w.ResponseWriter.WriteHeader(code)
+}
+
+func (w *statusWriter) Write(b []byte) (int, error) {
+	if w.code == 0 {
+		w.code = 200
 	}
-	for _, cl := range calls {
-		out.Calls = append(out.Calls, cl.Op)
-		if cl.Mutating() {
-			out.Mutations = append(out.Mutations, cl.Op)
+	return w.ResponseWriter.Write(b)
+}
+
+// startWire starts, once per worker, a net/http server on a loopback port
+// whose handler serves the job handed over through e.wire.
+func (e *env) startWire() error {
+	if e.wireLn != nil {
+		return nil
+	}
+	ln, err := net.Listen("tcp", "127.0.0.1:0")
+	if err != nil {
+		return err
+	}
+	e.wireLn = ln
+	e.wire = make(chan *wireJob, 1)
+	srv := &http.Server{ErrorLog: log.New(ioutil.Discard, "", 0), Handler: http.HandlerFunc(func(w http.ResponseWriter, r *http.Request) {
+		var job *wireJob
+		select {
+		case job = <-e.wire:
+		default:
+			http.Error(w, "no job", 500)
+			return
+		}
+		var out outcome
+		handler, finish, err := e.prepare(job.cs)
+		if err != nil {
+			out.BuildErr = err.Error()
+			job.done <- out
+			return
+		}
+		sw := &statusWriter{ResponseWriter: w}
+		panicked, val, stack := fw.Guard(func() { handler.ServeHTTP(sw, r) })
+		out.Status = sw.code
+		if out.Status == 0 && !panicked {
+			out.Status = 200
+		}
+		if panicked {
+			out.Panicked, out.PanicVal, out.Site, out.Stack = true, fmt.Sprint(val), fw.PanicSite(stack), stack
+		}
+		finish(&out)
+		job.done <- out
+	})}
+	srv.SetKeepAlivesEnabled(false)
+	go srv.Serve(ln)
+	return nil
+}
+
+func (e *env) stopWire() {
+	if e.wireLn != nil {
+		e.wireLn.Close()
+	}
+}
+
+// execWire writes the request to a socket with the wire-level fault named by
+// cs.Wire. Wall-clock limits here only ever make the run inconclusive.
+func (e *env) execWire(cs *Case) outcome {
+	var out outcome
+	if _, err := url.ParseRequestURI(cs.Path); err != nil || strings.ContainsAny(cs.Method+cs.Path, " \r\n") {
+		out.BuildErr = "request line not writable"
+		return out
+	}
+	if err := e.startWire(); err != nil {
+		out.BuildErr = "cannot listen on loopback: " + err.Error()
+		e.c.Inconclusive("C13: wire family unavailable: " + err.Error())
+		return out
+	}
+	var sb bytes.Buffer
+	fmt.Fprintf(&sb, "%s %s HTTP/1.1\r\nHost: dav.example\r\nConnection: close\r\n", cs.Method, cs.Path)
+	hdr := func(name string, v HV) {
+		if v.Set {
+			fmt.Fprintf(&sb, "%s: %s\r\n", name, v.V)
 		}
 	}
-	if cs.Target == "webdav" {
-		s, err := mon.Snapshot(e.fsRoot)
-		if err != nil || s.Shape() != e.pristine {
-			out.Mutations = append(out.Mutations, "tree changed")
-			if err := e.buildTree(); err != nil {
-				e.c.Inconclusive("C13: cannot rebuild the served tree: " + err.Error())
-			}
+	hdr("Depth", cs.Depth)
+	hdr("Overwrite", cs.Overwrite)
+	hdr("Destination", cs.Dest)
+	hdr("Content-Type", cs.CT)
+	switch cs.Wire {
+	case "chunked-bad-size":
+		sb.WriteString("Transfer-Encoding: chunked\r\n\r\n")
+		if len(cs.Body.Data) > 0 {
+			fmt.Fprintf(&sb, "%x\r\n%s\r\n", len(cs.Body.Data), cs.Body.Data)
 		}
+		sb.WriteString("ZZ\r\nnot a chunk")
+	case "short-content-length":
+		fmt.Fprintf(&sb, "Content-Length: %d\r\n\r\n%s", len(cs.Body.Data)+500, cs.Body.Data)
+	default:
+		out.BuildErr = "unknown wire fault " + cs.Wire
+		return out
+	}
+	job := &wireJob{cs: cs, done: make(chan outcome, 1)}
+	e.wire <- job
+	conn, err := net.Dial("tcp", e.wireLn.Addr().String())
+	if err != nil {
+		<-e.wire
+		out.BuildErr = "dial: " + err.Error()
+		e.c.Inconclusive("C13: wire family: " + out.BuildErr)
+		return out
+	}
+	defer conn.Close()
+	conn.SetDeadline(time.Now().Add(60 * time.Second))
+	conn.Write(sb.Bytes())
+	if tc, ok := conn.(*net.TCPConn); ok {
+		tc.CloseWrite()
+	}
+	io.Copy(ioutil.Discard, conn)
+	// The server closes the connection after the handler has returned, so
+	// the outcome is normally there already.
+	select {
+	case out = <-job.done:
+		return out
+	default:
+	}
+	select {
+	case <-e.wire: // net/http refused the request itself; no handler ran
+		out.BuildErr = "request refused by net/http before the handler"
+		return out
+	default:
+	}
+	select {
+	case out = <-job.done:
+	case <-time.After(60 * time.Second):
+		out.BuildErr = "handler did not finish"
+		e.c.Inconclusive("C13: wire family: handler did not finish within 60 s")
 	}
 	return out
 }
@@ -423,8 +644,27 @@ func reasons(cs *Case) []reason {
 		// answered by a redirect before the request is looked at
 		return nil
 	}
-	if cs.BodyPad > 0 || cs.BodyErr || cs.Cancelled {
-		// transport anomalies are not among the statement's malformed classes
+	if unreadable(cs) {
+		// The body broke off before a complete document had arrived: what
+		// the server holds is unparseable by construction.
+		dav := cs.Target == "caldav" || cs.Target == "carddav"
+		switch cs.Method {
+		case "REPORT", "MKCOL":
+			if dav {
+				return []reason{{"transport", "body:unreadable"}}
+			}
+		case "PROPPATCH":
+			if cs.Target != "principal" {
+				return []reason{{"transport", "body:unreadable"}}
+			}
+		case "PROPFIND":
+			return []reason{{"transport", "body:unreadable"}}
+		}
+		return nil
+	}
+	if cs.BodyPad > 0 || cs.fault() != "" || cs.Wire != "" || cs.Cancelled {
+		// other transport anomalies (a fault after a complete document, an
+		// over-long body, a cancelled context) are not malformed requests
 		return nil
 	}
 	dav := cs.Target == "caldav" || cs.Target == "carddav"
@@ -570,8 +810,20 @@ func parsedInput(cs *Case) string {
 	return "request"
 }
 
+// unreadable reports whether the body reader fails (or the wire breaks)
+// before a complete document was delivered, by construction.
+func unreadable(cs *Case) bool {
+	return (cs.fault() != "" || cs.Wire != "") && cs.BodyPad == 0 && cs.Body.Partial
+}
+
 func statusOK(cs *Case, status int) bool {
 	if status >= 400 && status <= 499 {
+		return true
+	}
+	// A body that cannot be read is the transport's fault as much as the
+	// client's: the statement's "never 2xx, never a mutation" is kept, 5xx
+	// is tolerated.
+	if unreadable(cs) && status >= 500 && status <= 599 {
 		return true
 	}
 	// COPY/MOVE are unimplemented by the CalDAV/CardDAV backends.
